@@ -396,6 +396,56 @@ theorem no_arg_no_limit (res : String) (args : List Val) (atts : List (String ×
     · have hr' : c.rule.res = res := not_not.mp hr
       simp only [ih']; rw [if_neg hr, hall c List.mem_cons_self hr']
 
+/-- the slot calls each controller of the resource at most once per entry, with the value the rule extracts:
+    after `slotCheck` every controller is either untouched or the result of one `check` on that value (so the
+    per-controller histories the theorems above quantify over are exactly what the slot produces) -/
+theorem slotCheck_pointwise (res : String) (args : List Val) (atts : List (String × Val)) (b : Int) :
+    ∀ (cs : List Ctl) (now : Int) (sl : List Int),
+      List.Forall₂ (fun c c' => c' = c ∨ ∃ t v, c.rule.res = res ∧ extract c.rule args atts = some v ∧ c' = (check c t v b).1)
+        cs (slotCheck res args atts b cs now sl).1 := by
+  intro cs
+  induction cs with
+  | nil => intro _ _; unfold slotCheck; exact List.Forall₂.nil
+  | cons c cs ih =>
+    intro now sl
+    have hrefl : List.Forall₂ (fun c c' => c' = c ∨ ∃ t v, c.rule.res = res ∧ extract c.rule args atts = some v ∧
+        c' = (check c t v b).1) cs cs := by
+      clear ih
+      induction cs with
+      | nil => exact List.Forall₂.nil
+      | cons x xs ihx => exact List.Forall₂.cons (Or.inl rfl) ihx
+    unfold slotCheck
+    by_cases hr : c.rule.res ≠ res
+    · rw [if_pos hr]; exact List.Forall₂.cons (Or.inl rfl) (ih now sl)
+    · rw [if_neg hr]
+      have hr' : c.rule.res = res := not_not.mp hr
+      cases he : extract c.rule args atts with
+      | none => exact List.Forall₂.cons (Or.inl rfl) (ih now sl)
+      | some v =>
+        dsimp only
+        have hstep : ∀ c', c' = (check c (now / 1000000) v b).1 →
+            (c' = c ∨ ∃ t v, c.rule.res = res ∧ extract c.rule args atts = some v ∧ c' = (check c t v b).1) :=
+          fun c' h => Or.inr ⟨_, _, hr', he, h⟩
+        cases hc : check c (now / 1000000) v b with
+        | mk c' rr =>
+          have hc' : c' = (check c (now / 1000000) v b).1 := by rw [hc]
+          cases rr with
+          | pass => exact List.Forall₂.cons (hstep c' hc') (ih now sl)
+          | block => exact List.Forall₂.cons (hstep c' hc') hrefl
+          | spin => exact List.Forall₂.cons (hstep c' hc') hrefl
+          | wait ms =>
+            dsimp only
+            split
+            · exact List.Forall₂.cons (hstep c' hc') (ih _ _)
+            · exact List.Forall₂.cons (hstep c' hc') (ih now sl)
+
+/-- the value's specific threshold is used when one is configured, the rule threshold otherwise -/
+theorem tokenCount_specific (r : Rule) (v : Val) (t : Int) (h : r.items.lookup v = some t) : tokenCount r v = t := by
+  simp [tokenCount, h]
+
+theorem tokenCount_default (r : Rule) (v : Val) (h : r.items.lookup v = none) : tokenCount r v = r.T := by
+  simp [tokenCount, h]
+
 /-- extraction: the attachment under the rule's key wins, then the index counted from the end when negative;
     out-of-range indices and nil values give "no argument" -/
 theorem extract_att (r : Rule) (args : List Val) (atts : List (String × Val)) (v : Val)
